@@ -148,6 +148,7 @@ theorem countLoop_argsText_tail {css : List (List Cell)} {text : Bytes} (h : Arg
       | succ g =>
         obtain ⟨hne0, _, h0, _, _, _, h47, _⟩ := ht.start
         obtain ⟨r, hr, hsrc, hsk, _⟩ := ht.skip tl (t ++ tl).length 0 recent false htl.sep
+        have hr := skipNextPrintedArg_checkFuel hr
         have hhd : hd (t ++ tl) = hd t := hd_append_of_ne_nil _ _ hne0
         have hpos : 0 < t.length := List.length_pos_iff.mpr hne0
         have hle := htl.wsLen_le
@@ -184,6 +185,7 @@ theorem countLoop_argsText_tail {css : List (List Cell)} {text : Bytes} (h : Arg
       obtain ⟨hne0, _, h0, _, _, _, h47, _⟩ := ht.start
       obtain ⟨r, hr, hsrc, hsk, _⟩ :=
         ht.skip (sep ++ (text ++ tl)) (t ++ (sep ++ (text ++ tl))).length 0 recent false hS
+      have hr := skipNextPrintedArg_checkFuel hr
       have hhd : hd (t ++ (sep ++ (text ++ tl))) = hd t := hd_append_of_ne_nil _ _ hne0
       have h0' : hd (text ++ tl) ≠ 0 := hstart.2.2.1
       have h37 : hd (text ++ tl) ≠ 37 := hstart.2.2.2.2.2.1
